@@ -24,21 +24,27 @@ def partition(eng, st, s, sep):
 
 
 def rstrip(eng, st, s, args):
-    """s.rstrip(chars): longest prefix whose last element is not in chars (chars a literal)."""
+    """s.rstrip(chars): longest prefix whose last element is not in chars (chars a literal).  The cut position is an
+    uninterpreted function of (s, chars), characterised at each use site, so equal arguments give equal results."""
     if args and not isinstance(args[0], VNone):
         chars = args[0]
         if chars.py is None:
             raise Unsupported("rstrip with symbolic chars")
-        cset = [ord(c) if isinstance(c, str) else c for c in chars.py]
+        cset = sorted({ord(c) if isinstance(c, str) else c for c in chars.py})
     else:
         cset = [9, 10, 11, 12, 13, 32]
     inset = lambda v: z3.Or(*[v == c for c in cset])
-    n = fresh("rs", I)
+    f = z3.Function("rstrip_len_" + "_".join(map(str, cset)), ISq, I)
+    if s.py is None:
+        s = eng.named(st, s, "rs")
+    n = f(s.t)
     j = fresh("j", I)
     L = IS.len(s.t)
     st.assume(0 <= n, n <= L,
               z3.Implies(n > 0, z3.Not(inset(IS.at(s.t, n - 1)))),
               z3.ForAll([j], z3.Implies(z3.And(n <= j, j < L), inset(IS.at(s.t, j))), patterns=[IS.at(s.t, j)]))
+    if s.py is not None:
+        return lit_seq(s.py.rstrip(args[0].py) if args and not isinstance(args[0], VNone) else s.py.rstrip(), s.kind)
     return VSeq(IS.sl(s.t, z3.IntVal(0), n), s.kind)
 
 
